@@ -10,7 +10,7 @@ from . import tlc
 from .num import cq, wshape
 from .tlaval import iter_dump_states
 
-INVS = ["HermitianOK", "MeanOK", "OrderOK", "ReversibleOK", "DissipativeOK", "DiffusionPSD", "InclusionOK", "Mix1dOK", "SemigroupOK"]
+INVS = ["HermitianOK", "MeanOK", "OrderOK", "ReversibleOK", "DissipativeOK", "DiffusionPSD", "InclusionOK", "Mix1dOK", "SemiRealOK", "SemigroupOK"]
 
 QUICK_DN = [1003, 1004, 1005, 1008, 1009, 1016, 2003, 2004, 2005, 2006, 3003, 3004]
 THOR_DN = [1000 + n for n in list(range(3, 34)) + [49, 64, 98]] + [2000 + n for n in range(3, 13)] + [3000 + n for n in range(3, 8)]
@@ -88,12 +88,12 @@ def draw_variants(cls, mix, D, rng, maxj=6):
             out.append((lab, p, (cls, kw)))
     elif cls == "Dispersion":
         c = float(rng.uniform(-1, 1))
-        out.append(("scalar", {("dispersivity", d, 0): c for d in range(1, D + 1)}, (cls, dict(dispersivity=c, advect_on_diffusion=mix))))
+        out.append(("scalar", {("dispersivity", d, 0): c for d in range(1, D + 1)}, (cls, dict(dispersivity=c, advect_on_diffusion=bool(mix)))))
         v = rng.uniform(-1, 1, D)
-        out.append(("vector", {("dispersivity", d, 0): v[d - 1] for d in range(1, D + 1)}, (cls, dict(dispersivity=v, advect_on_diffusion=mix))))
+        out.append(("vector", {("dispersivity", d, 0): v[d - 1] for d in range(1, D + 1)}, (cls, dict(dispersivity=v, advect_on_diffusion=bool(mix)))))
     elif cls == "HyperDiffusion":
         z = float(rng.uniform(1e-4, 0.05))
-        out.append(("scalar", {("hyper_diffusivity", 0, 0): z}, (cls, dict(hyper_diffusivity=z, diffuse_on_diffuse=mix))))
+        out.append(("scalar", {("hyper_diffusivity", 0, 0): z}, (cls, dict(hyper_diffusivity=z, diffuse_on_diffuse=bool(mix)))))
     elif cls == "GeneralLinear":
         for J in (1, 2, 3, 4, maxj):
             a = rng.uniform(-1, 1, J + 1) * np.array([0.5 ** j for j in range(J + 1)])
